@@ -239,7 +239,27 @@ def check_storage(ctx, rule="WIRE-PH"):
             R.violation(rule, "%s|%s" % (STO, name), "storage-header parser: `%s` must be %s, it is %s" % (name, want, str(got)[:200]), function=STO, file=fl, line=ln)
         if not bad:
             R.obligation(rule, "%s|fields|%d" % (STO, n_some), "discharged", "seconds LE @p+4, microseconds LE @p+8, ECU id @p+12, remainder @p+16, shift = p")
-    R.instance(rule, "storage-header parser: %d 'found' exit(s), %d 'not found' exit(s)" % (n_some, n_none))
+    # refusals: once the pattern was found at p, the parser may only refuse while fewer than 16 bytes follow p
+    n_err = 0
+    ilen = Lin.sym("len(input)")
+    for st, rv in outs:
+        if not isinstance(rv, Enum):
+            continue
+        for vi, fs in rv.variants:
+            if vi == 0:
+                continue
+            if not any(k[0] == "find" and k[1] == "some" for k in st.key):
+                continue
+            if any(k[0] == "tag" and k[1] == "mismatch" for k in st.key):
+                continue  # re-checking the pattern at the position where it was just found cannot fail
+            fsyms = sorted(sy for sy in eng.bounds if str(sy).startswith("found#") and (st.holds(Lin.sym(sy), eng)))
+            short = [sy for sy in fsyms if st.holds(Lin.sym(sy).add(Lin.const(15)).sub(ilen), eng)]
+            n_err += 1
+            if short:
+                R.obligation(rule, "%s|refuse-only-short|%r" % (STO, st.key[-2:]), "discharged", "a refusal after the pattern was found implies fewer than 16 bytes from the pattern on")
+            else:
+                R.violation(rule, STO + "|refuse-with-whole-header", "the storage-header parser can refuse (Incomplete / error) although the pattern was found and 16 bytes follow it: a complete storage header is reported as missing bytes", function=STO, file=fl, line=ln)
+    R.instance(rule, "storage-header parser: %d 'found' exit(s), %d 'not found' exit(s), %d refusal(s) after a found pattern" % (n_some, n_none, n_err))
     if n_some < 1 or n_none < 1:
         R.violation(rule, STO + "|exits", "expected a 'found' and a 'not found' exit (saw %d / %d)" % (n_some, n_none), function=STO, kind="UNRECOGNISED-SHAPE")
 
